@@ -53,7 +53,10 @@ def payOutcomes (b : Backend) (f : F) : List (Ev × F) :=
     (if f.paid then
        -- legacy recovery follows the existing payment; a sendpay-like back-end returns the existing result
        [(E_ActionSucceeded, { f with preimageRec := true })]
-     else if f.pending then []
+     else if f.pending then
+       -- a back-end that waits for the HTLC already in flight instead of refusing a second payment
+       [(E_ActionSucceeded, { f with paid := true, pending := false, preimageRec := true }),
+        (E_ActionFailed, { f with pending := false })]
      else
        [(E_ActionSucceeded, { f with paid := true, preimageRec := true })] ++
        (if b.errorWhilePending then [(E_ActionFailed, { f with pending := true })] else []))
